@@ -676,13 +676,39 @@ func identityAccepted(o *Obs) bool {
 	return ok && !strings.ContainsAny(n, "<\n\r") && specEmailRe.MatchString(e)
 }
 
+// intact: nothing in the repository is damaged as far as the independent observer can tell
+func intact(o *Obs) bool {
+	if !o.IndexOK && o.HasIndex {
+		return false
+	}
+	if _, ok := o.headBranch(); !ok {
+		return false
+	}
+	for _, x := range o.Objects {
+		if !x.OK || !x.NameOK {
+			return false
+		}
+	}
+	for _, b := range o.Branches {
+		if len(b) != 40 {
+			return false
+		}
+		for _, c := range b {
+			if !(c >= '0' && c <= '9' || c >= 'a' && c <= 'f') {
+				return false
+			}
+		}
+	}
+	return configLoads(o.CfgLocal) && configLoads(o.CfgGlobal)
+}
+
 // ---- the observation channels every property relies on ----
 
 // orReaders: the read-only commands the properties are observed through must be faithful and must not change
 // anything: `ls-files [-s]` prints the staging area as stored, `rev-parse HEAD|<branch>` the stored commit id,
 // and status / log / reflog / ls-files / rev-parse / cat-file / hash-object / branch --list leave every file alone.
 func orReaders(t *Trans) []Viol {
-	if len(t.Args) == 0 || !t.Pre.Inited {
+	if len(t.Args) == 0 || !t.Pre.Inited || !intact(t.Pre) {
 		return nil
 	}
 	var vs []Viol
@@ -727,6 +753,26 @@ func orReaders(t *Trans) []Viol {
 			if x, isCommit := t.Pre.Objects[string(want)]; isCommit && x.OK && x.Kind == "commit" {
 				vs = append(vs, Viol{Clause: "observe.rev-parse", Detail: fmt.Sprintf("rev-parse %q printed %q, stored %q", a[1], strings.TrimSpace(t.Res.Stdout), want)})
 			}
+		}
+	}
+	return vs
+}
+
+// ---- C19 (command level) ----
+
+// orC19: on any repository, damaged or not, a command ends with exit status 0 or 1 (no panic, no hang), and
+// `cat-file` never serves an object whose file does not hold content hashing to the requested id
+func orC19(t *Trans) []Viol {
+	if len(t.Args) == 0 {
+		return nil
+	}
+	var vs []Viol
+	if t.Res.Class == "crash" || t.Res.Class == "hang" {
+		vs = append(vs, Viol{Clause: "no-crash", Detail: fmt.Sprintf("%s: %s", t.Res.Class, clip(firstLine(strings.TrimSpace(t.Res.Stderr)), 160))})
+	}
+	if t.Args[0] == "cat-file" && len(t.Args) == 3 && t.Res.Class == "ok" {
+		if x, ok := t.Pre.Objects[t.Args[2]]; ok && !(x.OK && x.NameOK) {
+			vs = append(vs, Viol{Clause: "no-wrong-object", Detail: fmt.Sprintf("cat-file %s succeeded on %s although the object file does not hold content hashing to that id", t.Args[1], t.Args[2][:8])})
 		}
 	}
 	return vs
